@@ -404,6 +404,18 @@ pub fn gen_history(rng: &mut Rng, prog: &Program, cfg: &GenCfg) -> (Vec<(usize, 
     }
     if !f.is_none() { faults.insert(i, f); }
   }
+  // Faults with workload: in crash + bottom-up mixes, half of the crashed builds are directly followed by an external
+  // change and a bottom-up build, so that the records an abort leaves behind meet scheduling and nested requires.
+  if cfg.crash && cfg.bottom_up > 0 {
+    let crashed: Vec<usize> = faults.iter().filter(|(_, f)| f.crash_at.is_some()).map(|(i, _)| *i).collect();
+    for i in crashed {
+      if i + 2 < steps.len() && rng.chance(50) && !faults.contains_key(&(i + 1)) && !faults.contains_key(&(i + 2)) {
+        let res = if has_mode && rng.chance(50) { nres - 1 } else { rng.below(nres as u64) as usize };
+        steps[i + 1] = Step::Change { res, val: Some(rng.below(NVALS as u64) as Val) };
+        steps[i + 2] = Step::BottomUp { report: None, then_require: vec![] };
+      }
+    }
+  }
   (init, steps, faults)
 }
 
